@@ -12,6 +12,8 @@ checks = {
  "C09": ("exploration", "Histories with verbatim re-submissions in every input form; the proto, JSON, JSON_IETF and 8 XML renderings of the same tree instance must be empty and both stores unchanged.", "4 C09"),
  "C07": ("fault_enumeration", "For a generated history and a chosen transaction, every collaborator call (target.Set, cache Read/ReadCh/GetKeys/Modify, schema GetSchema) is numbered in a counting pass; sampled (call, fault kind) pairs incl. torn writes, lost acks, short reads, device reject/unreachable/lost reply and fail-stop crash + restart over the same badger directory are injected one at a time in fresh worlds, the request is retried and the outcome compared with the fault-free reference run.", "4 C07"),
  "C10": ("exploration", "On every Set of generated histories the direct device asks the same tree instance for proto, JSON, JSON_IETF and the 8 XML documents (change and full views); each is decoded by the harness's own schema-driven decoders, applied to a copy of the prior device state under its protocol's semantics and compared; XML well-formedness, namespace, key-order and operation clauses are checked per document.", "4 C10"),
+ "C11": ("exploration", "C01/C02 histories over the adversarial profile (prefix-related names and key values, separator characters in keys, lists with 2 and 3 keys in non-alphabetical order): every path is followed through request, tree, cache key, device and response and compared structurally by the model oracles; ToPath(ToStrings(p)) and ParsePath(ToXPath(p)) asserted on every path of a run. Claimed for what crosses parties, not for the cross product of pure converters.", "4 C11"),
+ "C12": ("exploration", "Single-leaf transactions over one leaf per YANG built-in type x boundary/interior values x input form (typed, string, JSON, JSON_IETF); the value at the device, in the intended store and returned by GetData in four encodings must denote the supplied datum (abstract value domain); equal data must not be re-sent. Claimed for the compositions the running system performs.", "4 C12"),
  "C13": ("exploration", "Scripted device notifications (re-sync cycles, on-change updates/deletes, JSON blobs, state leaves) into the real Datastore.Sync with 1/2/16 write workers; every cache write of a sync worker parks in a decorator and the seeded scheduler chooses the completion order; CONFIG/STATE compared with a sequential running-mirror model at quiescence.", "4 C13"),
  "C18": ("fault_enumeration", "The real ncTarget.Set is driven around an in-process netconf.Driver with XML change documents captured from real trees; for both commit-datastore settings, the 8 option combinations and every failure point of the driver call sequence (with and without rpc-error warnings) - enumerated completely per document - the recorded call sequence and the fake device's candidate are judged.", "4 C18"),
  "C19": ("exploration", "Server.GetData/Subscribe/WatchDeviations run against fake server streams under the seeded scheduler; Send failures at every index, stalls, slow consumers and client cancellation at every tick; bounded return after the stream ends, no panic, no goroutine left at bubble end (synctest).", "4 C19"),
